@@ -22,9 +22,11 @@ MUTANTS = [
     M("mbox-skip-empty-subject", MB, "            m = parse_email_message(message)\n", "            m = parse_email_message(message)\n            if not m.subject:\n                continue\n", "C03-FILL"),
     M("xlsx-visible-sheets-only", XL, "            metadata = _extract_metadata_from_workbook(wb)\n            sheet_names = list(wb.sheetnames)\n", "            metadata = _extract_metadata_from_workbook(wb)\n            sheet_names = [n for n in wb.sheetnames if wb[n].sheet_state == \"visible\"]\n", "C03-FILL"),
     M("xlsx-chart-sheet-unguarded", "sharepoint2text/parsing/extractors/ms_modern/xlsx_extractor.py", "        if not hasattr(ws, \"iter_rows\"):\n", "        if False:\n", "C03-KIND"),
+    M("odt-flush-drops-preamble", "sharepoint2text/parsing/extractors/data_types.py", "            if not (text or current_tables):\n                current_lines = []\n                current_tables = []\n                return\n\n            unit_heading_path = list(base_heading_path)", "            if not (text or current_tables) or not current_heading_path:\n                current_lines = []\n                current_tables = []\n                return\n\n            unit_heading_path = list(base_heading_path)", "C03-PART"),
 ]
 MUTANTS.append(M("odp-second-title-in-no-unit", X + "open_office/odp_extractor.py", "                if not found_title and (\n                    \"Title\" in style_name or style_name == \"TitleText\"\n                ):\n                    slide.title = text\n                    found_title = True\n                elif", "                if \"Title\" in style_name or style_name == \"TitleText\":\n                    if not found_title:\n                        slide.title = text\n                        found_title = True\n                elif", "C03-COVER"))
 TWINS = [
+    T("docx-heading-level-also-from-style-prefix", "sharepoint2text/parsing/extractors/data_types.py", "            match = heading_re.match(style.strip())\n            if not match:\n                return None\n", "            match = heading_re.match(style.strip())\n            if not match:\n                if style.lower().startswith(\"titel\"):\n                    return 1\n                return None\n"),
     T("xlsx-chart-sheet-by-isinstance", "sharepoint2text/parsing/extractors/ms_modern/xlsx_extractor.py", "        if not hasattr(ws, \"iter_rows\"):\n", "        if isinstance(ws, Chartsheet):\n"),
     T("join-inlined", D, "    def get_full_text(self) -> str:\n        return _join_unit_text(self.iterate_units())\n\n    def get_metadata(self) -> PdfMetadata:", "    def get_full_text(self) -> str:\n        return (\"\\n\".join(unit.get_text() for unit in self.iterate_units())).strip()\n\n    def get_metadata(self) -> PdfMetadata:"),
     T("enumerate-positional-start", D, "        for page_number, page in enumerate(self.pages, start=1):\n            yield PdfUnit(", "        for page_number, page in enumerate(self.pages, 1):\n            yield PdfUnit("),
